@@ -2,9 +2,9 @@ import SaphyrVerif.Lemmas.C13_Emit
 import SaphyrVerif.Lemmas.C13_Lines
 /-!
 C20 proof machinery: flow wrappers.  A flow fragment (leaves, `Some`, newtype structs, sequences /
-tuples, mappings with distinct safe string keys — no enum variants with payload: they are written with
-their block layout inside flow, a defect), its one-line flow text, the emitter invariant in flow
-context and the reference reader on the flow text.
+tuples / tuple structs, mappings with distinct safe string keys, enum variants with data — written
+as `{Variant: payload}` inside a flow collection), its one-line flow text, the emitter invariant in
+flow context and the reference reader on the flow text.
 -/
 set_option linter.unusedSimpArgs false
 set_option linter.unusedVariables false
@@ -25,7 +25,11 @@ def inFlowFrag : SVal → Bool
   | .newtypeStruct v => inFlowFrag v
   | .seq xs => inFlowFragList xs
   | .tuple xs => inFlowFragList xs
+  | .tupleStruct xs => inFlowFragList xs
   | .map _ es => inFlowFragEntries es && (keysOf es).Nodup
+  | .newtypeVariant n v => isSafeStr n && inFlowFrag v
+  | .tupleVariant n xs => isSafeStr n && inFlowFragList xs
+  | .structVariant n fs => isSafeStr n && (inFlowFragEntries fs && (keysOf fs).Nodup)
   | _ => false
 def inFlowFragList : List SVal → Bool
   | [] => true
@@ -34,6 +38,9 @@ def inFlowFragEntries : List (SVal × SVal) → Bool
   | [] => true
   | (k, v) :: es => (match k with | .str s => isSafeStr s | _ => false) && inFlowFrag v && inFlowFragEntries es
 end
+
+/-- `{Variant: payload}` -/
+def flowVariant (n payload : List Char) : List Char := '{' :: n ++ ':' :: ' ' :: payload ++ ['}']
 
 mutual
 /-- the text of a value inside a flow collection -/
@@ -48,7 +55,11 @@ def flowTxt : SVal → List Char
   | .newtypeStruct v => flowTxt v
   | .seq xs => '[' :: flowItems xs ++ [']']
   | .tuple xs => '[' :: flowItems xs ++ [']']
+  | .tupleStruct xs => '[' :: flowItems xs ++ [']']
   | .map _ es => '{' :: flowEntries es ++ ['}']
+  | .newtypeVariant n v => flowVariant n (flowTxt v)
+  | .tupleVariant n xs => flowVariant n ('[' :: flowItems xs ++ [']'])
+  | .structVariant n fs => flowVariant n ('{' :: flowEntries fs ++ ['}'])
   | _ => []
 /-- items separated by `, ` -/
 def flowItems : List SVal → List Char
@@ -67,20 +78,28 @@ end
 
 /-! ### the emitter in flow context -/
 
-/-- between two tokens of a flow collection: mid-line, nothing pending -/
+/-- between two tokens of a flow collection: mid-line (a space may be pending after `Variant:`) -/
 structure Mid (s : St) : Prop where
   als : s.atLineStart = false
-  psc : s.pendingSpaceAfterColon = false
   pss : s.pendingStrStyle = none
+
+/-- the deferred space after a `:` -/
+def sp (s : St) : List Char := if s.pendingSpaceAfterColon then [' '] else []
 
 variable {o : Opts} {f : ScalarFns}
 
-theorem serToken_flow (tok : List Char) {s : St} (h : Mid s) (hf : s.inFlow ≥ 1) :
-    (serToken o tok s).out = s.out ++ tok ∧ Mid (serToken o tok s) ∧ (serToken o tok s).inFlow = s.inFlow := by
-  have := h.als; have := h.psc
+/-- a node writes `txt` inside a flow collection (after the deferred space, if any) and leaves nothing pending -/
+def FlowOKP (P : St → Except EmitErr St) (txt : List Char) : Prop :=
+  ∀ (s : St), Mid s → s.inFlow ≥ 1 →
+    ∃ s', P s = .ok s' ∧ s'.out = s.out ++ sp s ++ txt ∧ Mid s' ∧ s'.pendingSpaceAfterColon = false ∧ s'.inFlow = s.inFlow
+
+theorem serToken_flow (tok : List Char) : FlowOKP (fun s => .ok (serToken o tok s)) tok := by
+  intro s h hf
+  have := h.als
   have hne : (s.inFlow == 0) = false := by simp; omega
-  refine ⟨?_, ⟨?_, ?_, ?_⟩, ?_⟩ <;>
-    simp [serToken, writeSpaceIfPending, indentIfLineStart, writeEndOfScalar, St.write, hne, *, h.pss]
+  refine ⟨_, rfl, ?_, ⟨?_, ?_⟩, ?_, ?_⟩ <;>
+    (by_cases hp : s.pendingSpaceAfterColon = true <;>
+      simp [serToken, writeSpaceIfPending, indentIfLineStart, writeEndOfScalar, St.write, sp, hne, hp, *, h.pss])
 
 theorem serStr_flow (ho : FragOpts o) (hf : SafeContract f) {v : List Char} (hs : isSafeStr v = true) {s : St}
     (h : Mid s) (hfl : s.inFlow ≥ 1) : serStr o f v s = serToken o v s := by
@@ -93,38 +112,180 @@ theorem serStr_flow (ho : FragOpts o) (hf : SafeContract f) {v : List Char} (hs 
   simp only [h.pss, hne, Option.isNone_none, Bool.true_and, Bool.false_and, Bool.false_eq_true, if_false]
   simp only [hp, Bool.false_eq_true, if_false, plainOrQuotedValue, hq, hgt, hf.value v o.yaml12 true hs, hf.shape v hs, if_true,
     Bool.not_false, Bool.and_self]
-  simp [serToken, writeSpaceIfPending, St.write, indentIfLineStart, h.als, h.psc, hgt', hf.value v o.yaml12 true hs, hf.shape v hs]
+  by_cases hpsc : s.pendingSpaceAfterColon = true <;>
+    simp [serToken, writeSpaceIfPending, St.write, indentIfLineStart, h.als, hpsc, hgt', hf.value v o.yaml12 true hs, hf.shape v hs]
 
 /-- `serialize_seq` in flow style (inside a flow collection, or at the top with the hint pending) -/
 theorem serializeSeq_flow {s : St} (h : Mid s) (hfl : s.inFlow ≥ 1 ∨ s.pendingFlow = some .anySeq) :
-    (serializeSeq o s).1.flow = true ∧ (serializeSeq o s).1.first = true ∧
-    (serializeSeq o s).2.out = s.out ++ ['['] ∧ Mid (serializeSeq o s).2 ∧
+    (serializeSeq o s).1.flow = true ∧ (serializeSeq o s).1.first = true ∧ (serializeSeq o s).1.restoreShift = none ∧
+    (serializeSeq o s).2.out = s.out ++ sp s ++ ['['] ∧ Mid (serializeSeq o s).2 ∧
+    (serializeSeq o s).2.pendingSpaceAfterColon = false ∧
     (serializeSeq o s).2.inFlow = s.inFlow := by
-  have := h.als; have := h.psc
+  have := h.als
   by_cases hz : s.inFlow > 0
-  · refine ⟨?_, ?_, ?_, ⟨?_, ?_, ?_⟩, ?_⟩ <;>
-      simp [serializeSeq, takeFlow, hz, writeSpaceIfPending, indentIfLineStart, St.write, *, h.pss]
+  · refine ⟨?_, ?_, ?_, ?_, ⟨?_, ?_⟩, ?_, ?_⟩ <;>
+      (by_cases hp : s.pendingSpaceAfterColon = true <;>
+        simp [serializeSeq, takeFlow, hz, writeSpaceIfPending, indentIfLineStart, St.write, sp, hp, *, h.pss])
   · have hp : s.pendingFlow = some .anySeq := by
       rcases hfl with h1 | h1
       · omega
       · exact h1
-    refine ⟨?_, ?_, ?_, ⟨?_, ?_, ?_⟩, ?_⟩ <;>
-      simp [serializeSeq, takeFlow, hz, hp, writeSpaceIfPending, indentIfLineStart, St.write, *, h.pss]
+    refine ⟨?_, ?_, ?_, ?_, ⟨?_, ?_⟩, ?_, ?_⟩ <;>
+      (by_cases hpp : s.pendingSpaceAfterColon = true <;>
+        simp [serializeSeq, takeFlow, hz, hp, writeSpaceIfPending, indentIfLineStart, St.write, sp, hpp, *, h.pss])
 
 theorem serializeMap_flow {s : St} (len : Option Nat) (h : Mid s) (hfl : s.inFlow ≥ 1 ∨ s.pendingFlow = some .anyMap) :
-    (serializeMap o len s).1.flow = true ∧ (serializeMap o len s).1.first = true ∧
-    (serializeMap o len s).2.out = s.out ++ ['{'] ∧ Mid (serializeMap o len s).2 ∧
+    (serializeMap o len s).1.flow = true ∧ (serializeMap o len s).1.first = true ∧ (serializeMap o len s).1.restoreShift = none ∧
+    (serializeMap o len s).2.out = s.out ++ sp s ++ ['{'] ∧ Mid (serializeMap o len s).2 ∧
+    (serializeMap o len s).2.pendingSpaceAfterColon = false ∧
     (serializeMap o len s).2.inFlow = s.inFlow := by
-  have := h.als; have := h.psc
+  have := h.als
   by_cases hz : s.inFlow > 0
-  · refine ⟨?_, ?_, ?_, ⟨?_, ?_, ?_⟩, ?_⟩ <;>
-      simp [serializeMap, takeFlow, hz, writeSpaceIfPending, indentIfLineStart, St.write, *, h.pss]
+  · refine ⟨?_, ?_, ?_, ?_, ⟨?_, ?_⟩, ?_, ?_⟩ <;>
+      (by_cases hp : s.pendingSpaceAfterColon = true <;>
+        simp [serializeMap, takeFlow, hz, writeSpaceIfPending, indentIfLineStart, St.write, sp, hp, *, h.pss])
   · have hp : s.pendingFlow = some .anyMap := by
       rcases hfl with h1 | h1
       · omega
       · exact h1
-    refine ⟨?_, ?_, ?_, ⟨?_, ?_, ?_⟩, ?_⟩ <;>
-      simp [serializeMap, takeFlow, hz, hp, writeSpaceIfPending, indentIfLineStart, St.write, *, h.pss]
+    refine ⟨?_, ?_, ?_, ?_, ⟨?_, ?_⟩, ?_, ?_⟩ <;>
+      (by_cases hpp : s.pendingSpaceAfterColon = true <;>
+        simp [serializeMap, takeFlow, hz, hp, writeSpaceIfPending, indentIfLineStart, St.write, sp, hpp, *, h.pss])
+
+/-- the elements of a flow sequence -/
+def FlowItemsOK (o : Opts) (f : ScalarFns) (xs : List SVal) : Prop :=
+  ∀ (s : St) (q : SeqSer), q.flow = true → Mid s → s.pendingSpaceAfterColon = false →
+    ∃ q' s', serSeqElems o f q xs s = .ok (q', s') ∧ q'.flow = true ∧ q'.restoreShift = q.restoreShift ∧
+      s'.out = s.out ++ (if q.first then flowItems xs else flowItemsTail xs) ∧ Mid s' ∧
+      s'.pendingSpaceAfterColon = false ∧ s'.inFlow = s.inFlow
+
+/-- the entries of a flow mapping -/
+def FlowEntriesOK (o : Opts) (f : ScalarFns) (es : List (SVal × SVal)) : Prop :=
+  ∀ (s : St) (m : MapSer), m.flow = true → Mid s → s.pendingSpaceAfterColon = false →
+    ∃ m' s', serMapEntries o f m es s = .ok (m', s') ∧ m'.flow = true ∧ m'.restoreShift = m.restoreShift ∧
+      s'.out = s.out ++ (if m.first then flowEntries es else flowEntriesTail es) ∧ Mid s' ∧
+      s'.pendingSpaceAfterColon = false ∧ s'.inFlow = s.inFlow
+
+/-- a sequence inside a flow collection -/
+theorem seq_flow_step {xs : List SVal} (hxs : FlowItemsOK o f xs) :
+    FlowOKP (ser o f (.seq xs)) ('[' :: flowItems xs ++ [']']) := by
+  intro s h hfl
+  obtain ⟨hq1, hq2, hq3, hout1, hm1, hp1, hi1⟩ := serializeSeq_flow (o := o) h (Or.inl hfl)
+  obtain ⟨q', s', he, hqf, hqr, hout, hm, hp, hi⟩ := hxs _ (serializeSeq o s).1 hq1 hm1 hp1
+  rw [ser_seq, he]
+  have hne : (s'.inFlow == 0) = false := by simp; omega
+  have hs0 : ¬ s.inFlow = 0 := by omega
+  have hr : q'.restoreShift = none := by rw [hqr, hq3]
+  refine ⟨_, rfl, ?_, ?_, ?_, ?_⟩
+  · simp [seqEnd, hr, hqf, St.write, hne, hout, hout1, hq2, List.append_assoc]
+  · constructor <;> simp [seqEnd, hr, hqf, St.write, hne, hm.als, hm.pss]
+  · simp [seqEnd, hr, hqf, St.write, hne, hp]
+  · simp [seqEnd, hr, hqf, St.write, hne, hi, hi1, hs0]
+
+/-- a mapping inside a flow collection -/
+theorem map_flow_step (known : Bool) {es : List (SVal × SVal)} (hes : FlowEntriesOK o f es) :
+    FlowOKP (ser o f (.map known es)) ('{' :: flowEntries es ++ ['}']) := by
+  intro s h hfl
+  obtain ⟨hq1, hq2, hq3, hout1, hm1, hp1, hi1⟩ :=
+    serializeMap_flow (o := o) (if known then some es.length else none) h (Or.inl hfl)
+  obtain ⟨m', s', he, hmf, hmr, hout, hm, hp, hi⟩ := hes _ (serializeMap o _ s).1 hq1 hm1 hp1
+  rw [ser_map, he]
+  have hne : (s'.inFlow == 0) = false := by simp; omega
+  have hs0 : ¬ s.inFlow = 0 := by omega
+  have hr : m'.restoreShift = none := by rw [hmr, hq3]
+  refine ⟨_, rfl, ?_, ?_, ?_, ?_⟩
+  · simp [mapEnd, hr, hmf, St.write, hne, hout, hout1, hq2, List.append_assoc]
+  · constructor <;> simp [mapEnd, hr, hmf, St.write, hne, hm.als, hm.pss]
+  · simp [mapEnd, hr, hmf, St.write, hne, hp]
+  · simp [mapEnd, hr, hmf, St.write, hne, hi, hi1, hs0]
+
+/-- an enum variant with data inside a flow collection: `{Variant: payload}` -/
+theorem variant_flow_step (ho : FragOpts o) (hf : SafeContract f) {n : List Char} (hn : isSafeStr n = true)
+    {P : St → Except EmitErr St} {txt : List Char} (hP : FlowOKP P txt) :
+    FlowOKP (variantRun o f n P) (flowVariant n txt) := by
+  intro s h hfl
+  have hz : s.inFlow > 0 := by omega
+  have hbv : beginVariant o f n s =
+      ({ flow := true }, { (writeSpaceIfPending s).write ('{' :: n ++ [':']) with pendingSpaceAfterColon := true, atLineStart := false }) := by
+    simp [beginVariant, hz, plainOrQuoted_safe ho hf hn]
+  have hm0 : Mid ({ (writeSpaceIfPending s).write ('{' :: n ++ [':']) with pendingSpaceAfterColon := true, atLineStart := false } : St) := by
+    constructor <;> (by_cases hp : s.pendingSpaceAfterColon = true <;> simp [writeSpaceIfPending, St.write, hp, h.pss])
+  obtain ⟨s2, he, hout, hm, hp, hi⟩ := hP _ hm0 (by
+    by_cases hp : s.pendingSpaceAfterColon = true <;> simp [writeSpaceIfPending, St.write, hp] <;> omega)
+  rw [variantRun, hbv]
+  simp only [he]
+  refine ⟨_, rfl, ?_, ?_, ?_, ?_⟩
+  · simp only [endVariant, restoreShift_none, if_true, St.write]
+    rw [hout]
+    by_cases hpp : s.pendingSpaceAfterColon = true <;>
+      simp [writeSpaceIfPending, St.write, sp, hpp, flowVariant, List.append_assoc]
+  · constructor <;> simp [endVariant, St.write, hm.als, hm.pss]
+  · simp [endVariant, St.write, hp]
+  · simp only [endVariant, restoreShift_none, if_true, St.write]
+    rw [hi]
+    by_cases hpp : s.pendingSpaceAfterColon = true <;> simp [writeSpaceIfPending, St.write, hpp]
+
+theorem flow_items_nil : FlowItemsOK o f [] := by
+  intro s q hq h hp
+  exact ⟨q, s, by rw [serSeqElems], hq, rfl, by cases q.first <;> simp [flowItems, flowItemsTail], h, hp, rfl⟩
+
+theorem flow_items_cons {x : SVal} {xs : List SVal} (hx : FlowOKP (ser o f x) (flowTxt x)) (hxs : FlowItemsOK o f xs) :
+    FlowItemsOK o f (x :: xs) := by
+  intro s q hq h hp
+  obtain ⟨qd, qf, qfirst, qrs⟩ := q
+  simp only at hq
+  subst hq
+  have hm0 : Mid ({ (if !qfirst then s.write [',', ' '] else s) with inFlow := (if !qfirst then s.write [',', ' '] else s).inFlow + 1 } : St) := by
+    cases qfirst <;> constructor <;> simp [St.write, h.als, h.pss]
+  have hp0 : ({ (if !qfirst then s.write [',', ' '] else s) with inFlow := (if !qfirst then s.write [',', ' '] else s).inFlow + 1 } : St).pendingSpaceAfterColon = false := by
+    cases qfirst <;> simp [St.write, hp]
+  obtain ⟨sx, hex, houtx, hmx, hpx, hix⟩ := hx _ hm0 (by simp)
+  have hmx' : Mid ({ sx with inFlow := sx.inFlow - 1 } : St) := ⟨hmx.als, hmx.pss⟩
+  obtain ⟨q', s', he, hqf, hqr, hout, hm, hpp, hi⟩ :=
+    hxs { sx with inFlow := sx.inFlow - 1 } { depth := qd, flow := true, first := false, restoreShift := qrs } rfl hmx' hpx
+  refine ⟨q', s', ?_, hqf, by simpa using hqr, ?_, hm, hpp, ?_⟩
+  · rw [serSeqElems]
+    simp only [if_true, hex]
+    exact he
+  · rw [hout, houtx]
+    cases qfirst <;> simp [sp, hp, St.write, flowItems, flowItemsTail, List.append_assoc]
+  · rw [hi]; simp only [hix]
+    cases qfirst <;> simp [St.write]
+
+theorem flow_entries_nil : FlowEntriesOK o f [] := by
+  intro s m hm h hp
+  exact ⟨m, s, by rw [serMapEntries], hm, rfl, by cases m.first <;> simp [flowEntries, flowEntriesTail], h, hp, rfl⟩
+
+theorem flow_entries_cons (hf : SafeContract f) {kt : List Char} {v : SVal} {es : List (SVal × SVal)}
+    (hk : isSafeStr kt = true) (hv : FlowOKP (ser o f v) (flowTxt v)) (hes : FlowEntriesOK o f es) :
+    FlowEntriesOK o f ((.str kt, v) :: es) := by
+  intro s m hm h hp
+  obtain ⟨md, mf, mfirst, mlkc, mrs, mivs⟩ := m
+  simp only at hm
+  subst hm
+  let s1 : St := if !mfirst then s.write [',', ' '] else s
+  let s2 : St := { s1.write (kt ++ [':', ' ']) with atLineStart := false }
+  have hm0 : Mid ({ s2 with inFlow := s2.inFlow + 1 } : St) := by
+    cases mfirst <;> constructor <;> simp [s1, s2, St.write, h.pss]
+  have hp0 : ({ s2 with inFlow := s2.inFlow + 1 } : St).pendingSpaceAfterColon = false := by
+    cases mfirst <;> simp [s1, s2, St.write, hp]
+  obtain ⟨sx, hex, houtx, hmx, hpx, hix⟩ := hv { s2 with inFlow := s2.inFlow + 1 } hm0 (by simp)
+  have hmx' : Mid ({ sx with inFlow := sx.inFlow - 1 } : St) := ⟨hmx.als, hmx.pss⟩
+  obtain ⟨m', s', he, hmf, hmr, hout, hmm, hpp, hi⟩ :=
+    hes { sx with inFlow := sx.inFlow - 1 }
+      { depth := md, flow := true, first := false, lastKeyComplex := false, restoreShift := mrs, inlineValueStart := mivs } rfl hmx' hpx
+  refine ⟨m', s', ?_, hmf, by simpa using hmr, ?_, hmm, hpp, ?_⟩
+  · rw [serMapEntries]
+    simp only [if_true, keyText_safe hf hk]
+    show (match ser o f v { s2 with inFlow := s2.inFlow + 1 } with
+          | Except.error e => Except.error e
+          | Except.ok s => serMapEntries o f _ es { s with inFlow := s.inFlow - 1 }) = _
+    rw [hex]
+    exact he
+  · rw [hout, houtx]
+    cases mfirst <;> simp [sp, hp, s1, s2, St.write, flowEntries, flowEntriesTail, keyOf, List.append_assoc]
+  · rw [hi]; simp only [hix]
+    cases mfirst <;> simp [s1, s2, St.write]
 
 section
 variable (ho : FragOpts o) (hf : SafeContract f)
@@ -132,132 +293,86 @@ include ho hf
 
 mutual
 /-- a value inside a flow collection: its flow text, nothing else -/
-theorem ser_flow : ∀ (v : SVal), inFlowFrag v = true → ∀ (s : St), Mid s → s.inFlow ≥ 1 →
-    ∃ s', ser o f v s = .ok s' ∧ s'.out = s.out ++ flowTxt v ∧ Mid s' ∧ s'.inFlow = s.inFlow
-  | .unit, _, s, h, hfl => ⟨_, by rw [ser], by simpa [flowTxt] using serToken_flow (o := o) "null".toList h hfl⟩
-  | .none, _, s, h, hfl => ⟨_, by rw [ser], by simpa [flowTxt] using serToken_flow (o := o) "null".toList h hfl⟩
-  | .bool b, _, s, h, hfl => ⟨_, by rw [ser], by
-      simpa [flowTxt] using serToken_flow (o := o) (if b then "true".toList else "false".toList) h hfl⟩
-  | .int i, _, s, h, hfl => ⟨_, by rw [ser], by simpa [flowTxt] using serToken_flow (o := o) (intText i) h hfl⟩
-  | .str t, hv, s, h, hfl => by
+theorem ser_flow : ∀ (v : SVal), inFlowFrag v = true → FlowOKP (ser o f v) (flowTxt v)
+  | .unit, _ => by
+    intro s h hfl; rw [ser]; simpa [flowTxt] using serToken_flow (o := o) "null".toList s h hfl
+  | .none, _ => by
+    intro s h hfl; rw [ser]; simpa [flowTxt] using serToken_flow (o := o) "null".toList s h hfl
+  | .bool b, _ => by
+    intro s h hfl; rw [ser]
+    simpa [flowTxt] using serToken_flow (o := o) (if b then "true".toList else "false".toList) s h hfl
+  | .int i, _ => by
+    intro s h hfl; rw [ser]; simpa [flowTxt] using serToken_flow (o := o) (intText i) s h hfl
+  | .str t, hv => by
     simp only [inFlowFrag] at hv
-    exact ⟨_, by rw [ser, serStr_flow ho hf hv h hfl], by simpa [flowTxt] using serToken_flow (o := o) t h hfl⟩
-  | .unitVariant e n, hv, s, h, hfl => by
+    intro s h hfl
+    rw [ser, serStr_flow ho hf hv h hfl]
+    simpa [flowTxt] using serToken_flow (o := o) t s h hfl
+  | .unitVariant e n, hv => by
     simp only [inFlowFrag] at hv
-    have hm : Mid (writeSpaceIfPending s) := by
-      constructor <;> simp [writeSpaceIfPending, St.write, h.psc, h.als, h.pss]
-    have hi : (writeSpaceIfPending s).inFlow = s.inFlow := wsp_inFlow s
-    refine ⟨serToken o n s, ?_, ?_⟩
-    · rw [ser]
-      simp only [ho.tagged, Bool.false_eq_true, if_false]
-      rw [serStr_flow ho hf hv hm (by omega), serToken_wsp]
-    · simpa [flowTxt] using serToken_flow (o := o) n h hfl
-  | .some v, hv, s, h, hfl => by
+    intro s h hfl
+    rw [ser]
+    simp only [ho.tagged, Bool.false_eq_true, if_false]
+    rw [serStr_flow ho hf hv h hfl]
+    simpa [flowTxt] using serToken_flow (o := o) n s h hfl
+  | .some v, hv => by
     simp only [inFlowFrag] at hv
+    intro s h hfl
     rw [ser]; simpa [flowTxt] using ser_flow v hv s h hfl
-  | .newtypeStruct v, hv, s, h, hfl => by
+  | .newtypeStruct v, hv => by
     simp only [inFlowFrag] at hv
+    intro s h hfl
     rw [ser]; simpa [flowTxt] using ser_flow v hv s h hfl
-  | .seq xs, hv, s, h, hfl => by
+  | .seq xs, hv => by
     simp only [inFlowFrag] at hv
-    obtain ⟨hq1, hq2, hout1, hm1, hi1⟩ := serializeSeq_flow (o := o) h (Or.inl hfl)
-    obtain ⟨q', s', he, hqf, hout, hm, hi⟩ := ser_flow_items xs hv _ (serializeSeq o s).1 hq1 hm1
-    rw [ser_seq, he]
-    have hne : (s'.inFlow == 0) = false := by simp; omega
-    have hs0 : ¬ s.inFlow = 0 := by omega
-    refine ⟨_, rfl, ?_, ?_, ?_⟩
-    · simp [seqEnd, hqf, St.write, hne, hout, hout1, hq2, flowTxt, List.append_assoc]
-    · constructor <;> simp [seqEnd, hqf, St.write, hne, hm.als, hm.psc, hm.pss]
-    · simp [seqEnd, hqf, St.write, hne, hi, hi1, hs0]
-  | .tuple xs, hv, s, h, hfl => by
+    simpa [flowTxt] using seq_flow_step (ser_flow_items xs hv)
+  | .tuple xs, hv => by
     simp only [inFlowFrag] at hv
-    obtain ⟨hq1, hq2, hout1, hm1, hi1⟩ := serializeSeq_flow (o := o) h (Or.inl hfl)
-    obtain ⟨q', s', he, hqf, hout, hm, hi⟩ := ser_flow_items xs hv _ (serializeSeq o s).1 hq1 hm1
-    rw [ser_tuple, he]
-    have hne : (s'.inFlow == 0) = false := by simp; omega
-    have hs0 : ¬ s.inFlow = 0 := by omega
-    refine ⟨_, rfl, ?_, ?_, ?_⟩
-    · simp [seqEnd, hqf, St.write, hne, hout, hout1, hq2, flowTxt, List.append_assoc]
-    · constructor <;> simp [seqEnd, hqf, St.write, hne, hm.als, hm.psc, hm.pss]
-    · simp [seqEnd, hqf, St.write, hne, hi, hi1, hs0]
-  | .map known es, hv, s, h, hfl => by
+    intro s h hfl
+    rw [ser_tuple]
+    simpa [flowTxt] using seq_flow_step (ser_flow_items xs hv) s h hfl
+  | .tupleStruct xs, hv => by
+    simp only [inFlowFrag] at hv
+    intro s h hfl
+    rw [ser_tupleStruct]
+    simpa [flowTxt] using seq_flow_step (ser_flow_items xs hv) s h hfl
+  | .map known es, hv => by
     simp only [inFlowFrag, Bool.and_eq_true] at hv
-    obtain ⟨hq1, hq2, hout1, hm1, hi1⟩ :=
-      serializeMap_flow (o := o) (if known then some es.length else none) h (Or.inl hfl)
-    obtain ⟨m', s', he, hmf, hout, hm, hi⟩ := ser_flow_entries es hv.1 _ (serializeMap o _ s).1 hq1 hm1
-    rw [ser_map, he]
-    have hne : (s'.inFlow == 0) = false := by simp; omega
-    have hs0 : ¬ s.inFlow = 0 := by omega
-    refine ⟨_, rfl, ?_, ?_, ?_⟩
-    · simp [mapEnd, hmf, St.write, hne, hout, hout1, hq2, flowTxt, List.append_assoc]
-    · constructor <;> simp [mapEnd, hmf, St.write, hne, hm.als, hm.psc, hm.pss]
-    · simp [mapEnd, hmf, St.write, hne, hi, hi1, hs0]
-  | .newtypeVariant _ _, hv, _, _, _ => by simp [inFlowFrag] at hv
-  | .tupleStruct _, hv, _, _, _ => by simp [inFlowFrag] at hv
-  | .tupleVariant _ _, hv, _, _, _ => by simp [inFlowFrag] at hv
-  | .structVariant _ _, hv, _, _, _ => by simp [inFlowFrag] at hv
-  | .flowSeq _, hv, _, _, _ => by simp [inFlowFrag] at hv
-  | .flowMap _, hv, _, _, _ => by simp [inFlowFrag] at hv
-  | .commented _ _, hv, _, _, _ => by simp [inFlowFrag] at hv
-  | .spaceAfter _, hv, _, _, _ => by simp [inFlowFrag] at hv
-  | .litStr _, hv, _, _, _ => by simp [inFlowFrag] at hv
-  | .foldStr _, hv, _, _, _ => by simp [inFlowFrag] at hv
+    simpa [flowTxt] using map_flow_step known (ser_flow_entries es hv.1)
+  | .newtypeVariant n v, hv => by
+    simp only [inFlowFrag, Bool.and_eq_true] at hv
+    intro s h hfl
+    rw [ser_newtypeVariant]
+    simpa [flowTxt] using variant_flow_step ho hf hv.1 (ser_flow v hv.2) s h hfl
+  | .tupleVariant n xs, hv => by
+    simp only [inFlowFrag, Bool.and_eq_true] at hv
+    intro s h hfl
+    rw [ser_tupleVariant]
+    simpa [flowTxt] using variant_flow_step ho hf hv.1 (seq_flow_step (ser_flow_items xs hv.2)) s h hfl
+  | .structVariant n fs, hv => by
+    simp only [inFlowFrag, Bool.and_eq_true] at hv
+    intro s h hfl
+    rw [ser_structVariant]
+    simpa [flowTxt] using variant_flow_step ho hf hv.1 (map_flow_step true (ser_flow_entries fs hv.2.1)) s h hfl
+  | .flowSeq _, hv => by simp [inFlowFrag] at hv
+  | .flowMap _, hv => by simp [inFlowFrag] at hv
+  | .commented _ _, hv => by simp [inFlowFrag] at hv
+  | .spaceAfter _, hv => by simp [inFlowFrag] at hv
+  | .litStr _, hv => by simp [inFlowFrag] at hv
+  | .foldStr _, hv => by simp [inFlowFrag] at hv
 /-- the elements of a flow sequence -/
-theorem ser_flow_items : ∀ (xs : List SVal), inFlowFragList xs = true → ∀ (s : St) (q : SeqSer), q.flow = true → Mid s →
-    ∃ q' s', serSeqElems o f q xs s = .ok (q', s') ∧ q'.flow = true ∧
-      s'.out = s.out ++ (if q.first then flowItems xs else flowItemsTail xs) ∧ Mid s' ∧ s'.inFlow = s.inFlow
-  | [], _, s, q, hq, h => ⟨q, s, by rw [serSeqElems], hq, by cases q.first <;> simp [flowItems, flowItemsTail], h, rfl⟩
-  | x :: xs, hv, s, q, hq, h => by
+theorem ser_flow_items : ∀ (xs : List SVal), inFlowFragList xs = true → FlowItemsOK o f xs
+  | [], _ => flow_items_nil
+  | x :: xs, hv => by
     simp only [inFlowFragList, Bool.and_eq_true] at hv
-    obtain ⟨qd, qf, qfirst⟩ := q
-    simp only at hq
-    subst hq
-    have hm0 : Mid ({ (if !qfirst then s.write [',', ' '] else s) with inFlow := (if !qfirst then s.write [',', ' '] else s).inFlow + 1 } : St) := by
-      cases qfirst <;> constructor <;> simp [St.write, h.als, h.psc, h.pss]
-    obtain ⟨sx, hex, houtx, hmx, hix⟩ := ser_flow x hv.1 _ hm0 (by simp)
-    have hmx' : Mid ({ sx with inFlow := sx.inFlow - 1 } : St) := ⟨hmx.als, hmx.psc, hmx.pss⟩
-    obtain ⟨q', s', he, hqf, hout, hm, hi⟩ :=
-      ser_flow_items xs hv.2 { sx with inFlow := sx.inFlow - 1 } { depth := qd, flow := true, first := false } rfl hmx'
-    refine ⟨q', s', ?_, hqf, ?_, hm, ?_⟩
-    · rw [serSeqElems]
-      simp only [if_true, hex]
-      exact he
-    · rw [hout, houtx]
-      cases qfirst <;> simp [St.write, flowItems, flowItemsTail, List.append_assoc]
-    · rw [hi]; simp only [hix]
-      cases qfirst <;> simp [St.write]
+    exact flow_items_cons (ser_flow x hv.1) (ser_flow_items xs hv.2)
 /-- the entries of a flow mapping -/
-theorem ser_flow_entries : ∀ (es : List (SVal × SVal)), inFlowFragEntries es = true → ∀ (s : St) (m : MapSer), m.flow = true → Mid s →
-    ∃ m' s', serMapEntries o f m es s = .ok (m', s') ∧ m'.flow = true ∧
-      s'.out = s.out ++ (if m.first then flowEntries es else flowEntriesTail es) ∧ Mid s' ∧ s'.inFlow = s.inFlow
-  | [], _, s, m, hm, h => ⟨m, s, by rw [serMapEntries], hm, by cases m.first <;> simp [flowEntries, flowEntriesTail], h, rfl⟩
-  | (k, v) :: es, hv, s, m, hm, h => by
+theorem ser_flow_entries : ∀ (es : List (SVal × SVal)), inFlowFragEntries es = true → FlowEntriesOK o f es
+  | [], _ => flow_entries_nil
+  | (k, v) :: es, hv => by
     cases k <;> simp only [inFlowFragEntries, Bool.and_eq_true, Bool.false_and, Bool.false_eq_true, false_and] at hv
     rename_i kt
-    obtain ⟨md, mf, mfirst, mlkc, maad, mivs⟩ := m
-    simp only at hm
-    subst hm
-    let s1 : St := if !mfirst then s.write [',', ' '] else s
-    let s2 : St := { s1.write (kt ++ [':', ' ']) with atLineStart := false }
-    have hm0 : Mid ({ s2 with inFlow := s2.inFlow + 1 } : St) := by
-      cases mfirst <;> constructor <;> simp [s1, s2, St.write, h.psc, h.pss]
-    obtain ⟨sx, hex, houtx, hmx, hix⟩ := ser_flow v hv.1.2 { s2 with inFlow := s2.inFlow + 1 } hm0 (by simp)
-    have hmx' : Mid ({ sx with inFlow := sx.inFlow - 1 } : St) := ⟨hmx.als, hmx.psc, hmx.pss⟩
-    obtain ⟨m', s', he, hmf, hout, hmm, hi⟩ :=
-      ser_flow_entries es hv.2 { sx with inFlow := sx.inFlow - 1 }
-        { depth := md, flow := true, first := false, lastKeyComplex := false, alignAfterDash := maad, inlineValueStart := mivs } rfl hmx'
-    refine ⟨m', s', ?_, hmf, ?_, hmm, ?_⟩
-    · rw [serMapEntries]
-      simp only [if_true, keyText_safe hf hv.1.1]
-      show (match ser o f v { s2 with inFlow := s2.inFlow + 1 } with
-            | Except.error e => Except.error e
-            | Except.ok s => serMapEntries o f _ es { s with inFlow := s.inFlow - 1 }) = _
-      rw [hex]
-      exact he
-    · rw [hout, houtx]
-      cases mfirst <;> simp [s1, s2, St.write, flowEntries, flowEntriesTail, keyOf, List.append_assoc]
-    · rw [hi]; simp only [hix]
-      cases mfirst <;> simp [s1, s2, St.write]
+    exact flow_entries_cons hf hv.1.1 (ser_flow v hv.1.2) (ser_flow_entries es hv.2)
 end
 
 end
